@@ -1,6 +1,7 @@
 """C01 — serialised frames are exact UBX wire format for every payload length."""
 from .. import common as C
 from ..common import Case
+from .. import reqsuite as S_
 
 CHECKER = 'coqc props/C01.v (theorems in proofs/FrameP.v) + correspondence UbxFrame.to_bytes vs extracted to_bytes/wire'
 
@@ -146,6 +147,39 @@ def check(tier, seed):
             if par is not None:
                 pc, pi = parent.CID.cls, parent.CID.id
                 cases.append(Case('to_bytes-derived-class', f'wire {pc} {pi} {C.hexs(p)}', C.hexs(par), dict(desc, cls=pc, id=pi, style='parent-after-derived'), nontrivial=False, kind='derived-class'))
+        # a frame object whose class/id is set on the INSTANCE (generic "raw frame" usage): header and checksum follow frame.CID
+        for _ in range(12 if tier == 'quick' else 300):
+            c0, i0, c, i = (rng.randrange(256) for _ in range(4))
+            p = gen_payload(rng, rng.randrange(0, 20), 'rand')
+
+            def run_inst(c0=c0, i0=i0, c=c, i=i, p=p):
+                Fi = type('Fi', (UbxFrame,), {'CID': UbxCID(c0, i0), 'NAME': 'RAW'})
+                f = Fi()
+                f.CID = UbxCID(c, i)
+                f.data = bytearray(p)
+                m1 = bytes(f.to_bytes())
+                m2 = bytes(f.to_bytes())
+                return f'{C.hexs(m1)} {C.hexs(m2)} {C.hexs(f.data)}'
+            cases.append(Case('to_bytes-instance-cid', f'tobytes {c} {i} {C.hexs(p)}', C.guarded(run_inst), {'cls': c, 'id': i, 'class_level_cid': [c0, i0], 'len': len(p), 'payload_hex': C.hexs(p), 'style': 'instance-cid'}, kind='instance-cid'))
+        # serialisation as a server performs it: what _transmit() is handed is exactly to_bytes(), also after the server
+        # object has been idle for seconds, minutes or hours
+        from .. import reqgen as Q_
+        for _ in range(12 if tier == 'quick' else 200):
+            c, i = rng.choice(cids)
+            p = gen_payload(rng, rng.randrange(0, 24), 'rand')
+            idle = [rng.choice([0, 29000, 31000, 600000, 86400000]) for _ in range(3)]
+
+            def build(c=c, i=i, p=p):
+                Fs = type('Fs', (UbxFrame,), {'CID': UbxCID(c, i), 'NAME': 'SRV'})
+                f = Fs()
+                f.data = bytearray(p)
+                f.pack = lambda: None         # payload given directly
+                return f
+            out = Q_.run_impl({'pending': [], 'attempts': [], 'idle': 50}, 0, 100, [('fire', build)] * 3, idle_before=idle)
+            tx = [S_.parse_result(x)['tx'] for x in out.split(' ;; ')]
+            sent = [t[0][1:-1] if len(t) == 1 else f'{len(t)}-transmissions' for t in tx]
+            for k_, h in enumerate(sent):
+                cases.append(Case('to_bytes-via-server', f'wire {c} {i} {C.hexs(p)}', h, {'cls': c, 'id': i, 'len': len(p), 'payload_hex': C.hexs(p), 'style': 'fire_and_forget', 'idle_ms_before': idle[k_]}, nontrivial=False, kind='via-server'))
         res.compare(cases)
         # real message classes: wire(CID, pack()) on freshly constructed frames
         res.notes['lengths_distinct'] = len(set(lens))
